@@ -797,6 +797,15 @@ class SequencePlugin(Plugin):
     class SequenceNode(syntax.GroupNode):
         qclass = query.Sequence
 
+        def query(self, parser):
+            q = syntax.GroupNode.query(self, parser)
+            if not q.subqueries:
+                # Empty quotes, or nothing but stop words between them: like
+                # an empty phrase this matches nothing (a Sequence without
+                # sub-queries cannot be run)
+                return query.NullQuery
+            return q
+
     class QuoteNode(syntax.MarkerNode):
         def __init__(self, slop=None):
             self.slop = int(slop) if slop else 1
